@@ -587,11 +587,37 @@ def run_history(job):
     fam, profile, lineage, ops = job["fam"], job["profile"], job["lineage"], job["ops"]
     mm = MODELS[(fam, profile)]
     M = model_class(fam)
-    obj = fresh_model(fam, profile, lineage)
     names = datasets_of(fam)
     locals_, raws, hands = [], [], []      # data objects built in this history; caller frames; frames handed out
-    js_ref = mm["json"] if lineage == "fitted" else mm["json_reloaded"]
+    live = lineage == "live"
+    others = []                            # other model objects alive in this process: dict(obj, fam, js, v)
+    live_refs = {}
+    if live:
+        # the object under test is fitted HERE and used as it is (no copy, no pickling): whatever it shares with its
+        # class or with other objects stays shared
+        obj = new_model(fam, profile)
+        if fam == "Caltrack":
+            obj.fit(OBJ[mm["base"]]["obj"])
+        else:
+            obj.fit(OBJ[mm["base"]]["obj"], ignore_disqualification=True)
+        live_js0 = serial(fam, obj)
+        js_ref = live_js0
+        lineage = "fitted"
+    else:
+        obj = fresh_model(fam, profile, lineage)
+        js_ref = mm["json"] if lineage == "fitted" else mm["json_reloaded"]
     js = serial(fam, obj)
+
+    def reference(lin, name):
+        """prediction of a fresh copy: for a model fitted in this process, of a model restored from the document it
+        produced right after its fit"""
+        if not live:
+            return REF.get((fam, profile, lin, name))
+        if (lin, name) not in live_refs:
+            if live_js0.startswith("TOJSON-EXC"):
+                return None
+            live_refs[(lin, name)] = pred_digest(fam, M.from_json(live_js0), name)[0]
+        return live_refs[(lin, name)]
     snap = Snap(fam, locals_, raws, hands)
     trace, fails = [], []
     h0 = hourly_state(obj) if fam == "Hourly" else None
@@ -623,7 +649,7 @@ def run_history(job):
                 call = M.__name__ + ".predict"
                 d, res = pred_digest(fam, obj, name)
                 rec["pred"] = d
-                ref = REF.get((fam, profile, lineage, name))
+                ref = reference(lineage, name)
                 rec["ref"] = ref
                 if res is not None:
                     hands.append({"v": res, "from": "predict:" + name, "alias_of": None})
@@ -646,24 +672,28 @@ def run_history(job):
                 call = M.__name__ + ".from_json"
                 obj = M.from_json(obj.to_json())          # a reloaded CalTRACK model cannot be stored again (C01): op fails
                 lineage = "reloaded"
-                js_ref = mm["json_reloaded"]
+                js_ref = mm["json_reloaded"] if not live else serial(fam, M.from_json(live_js0))
                 rec["reloaded"] = True
             elif kind == "fit_other":
-                bases = [n for n in names if OBJ[n]["role"] == "baseline" and n != mm["base"]
-                         and not (fam == "Hourly" and OBJ[n]["ghi"] and False)]
+                ofam = op[3] if len(op) > 3 and op[3] in OBJ_ORDER else fam       # a model of another family (Billing inherits Daily)
+                rec["other_family"] = ofam
+                onames = datasets_of(ofam)
+                bases = [n for n in onames if OBJ[n]["role"] == "baseline" and n != mm["base"]]
                 name = bases[op[1] % len(bases)]
                 prof = op[2]
                 rec["dataset"] = name
-                call = M.__name__ + ".fit"
-                other = new_model(fam, prof if not (fam == "Hourly" and prof == "ghi" and not OBJ[name]["ghi"]) else "default")
+                call = model_class(ofam).__name__ + ".fit"
+                other = new_model(ofam, prof if not (ofam == "Hourly" and prof in ("ghi", "supp") and not OBJ[name]["ghi"]) else "default")
                 d = OBJ[name]["obj"]
                 rec["data_dq_before"] = len(d.disqualification)
                 try:
-                    if fam == "Caltrack":
+                    if ofam == "Caltrack":
                         other.fit(d)
                     else:
                         other.fit(d, ignore_disqualification=True)
                     rec["fit"] = "Fitted"
+                    rec["new_other"] = {"fam": ofam, "data": name, "profile": prof}
+                    others.append({"obj": other, "fam": ofam, "js": serial(ofam, other), "data": name})
                     rec["model_dq"] = len(getattr(other, "disqualification", []))
                     rec["data_dq"] = len(d.disqualification)
                     rec["model_w"] = len(getattr(other, "warnings", []))
@@ -675,6 +705,20 @@ def run_history(job):
                              "after fit the model's warnings/disqualification list is the data object's list itself", step)
                 except Exception as e:  # noqa
                     rec["fit"] = "EXC:" + exn_name(e)
+            elif kind == "use_other":
+                if not others:
+                    rec["skipped"] = True
+                else:
+                    oo = others[op[1] % len(others)]
+                    onames = [n for n in datasets_of(oo["fam"]) if OBJ[n]["role"] == "reporting"]
+                    nm = onames[op[2] % len(onames)]
+                    call = model_class(oo["fam"]).__name__ + ".predict (another object)"
+                    rec["dataset"] = nm
+                    try:
+                        predict_call(oo["fam"], oo["obj"], OBJ[nm]["obj"])
+                        oo["obj"].to_json()
+                    except Exception as e:  # noqa
+                        rec["other_exc"] = exn_name(e)
             elif kind == "construct":
                 specs = SPECS[fam]
                 spec = specs[op[1] % len(specs)]
@@ -758,6 +802,21 @@ def run_history(job):
         rec["state_vs_ref"] = json_fields_changed(js_ref, js) if (kind == "predict" and js != js_ref) else []
         if kind == "hourly_state" or fam == "Hourly":
             rec["hstate"] = hourly_state(obj)
+        # ---------------- every other model object alive: its serialised form must not move either
+        rec["others_changed"] = []
+        for k2, oo in enumerate(others):
+            if kind == "fit_other" and oo is others[-1] and "new_other" in rec:
+                continue                                   # the object that was just fitted
+            j2 = serial(oo["fam"], oo["obj"])
+            if j2 != oo["js"]:
+                flds = json_fields_changed(oo["js"], j2)
+                rec["others_changed"].append([k2, flds])
+                for fld in flds:
+                    fail({"call": call, "broken": "serialised form of another model object changed", "field": fld},
+                         "%s changed to_json() of another %s object (fitted on %s): %s" % (
+                             call, model_class(oo["fam"]).__name__, oo["data"], fld), step)
+                oo["js"] = j2
+        rec["n_others"] = len(others)
         # ---------------- literal oracle
         if rec["js_changed"]:
             for fld in rec["js_fields"]:
@@ -765,7 +824,7 @@ def run_history(job):
                      "to_json() differs before/after %s%s: %s%s" % (
                          kind, (" (" + rec["dataset"] + ")") if "dataset" in rec else "", fld,
                          (" (and to_json now raises %s)" % rec["to_json_raises"]) if "to_json_raises" in rec else ""), step)
-        if kind == "reload" and js_new != mm["json_reloaded"] and js == js_ref:
+        if kind == "reload" and not live and js_new != mm["json_reloaded"] and js == js_ref:
             fail({"call": call, "broken": "reload of an unchanged model differs from a fresh reload"},
                  "from_json(to_json()) of an unchanged object does not serialise like a fresh reload", step)
         if kind == "predict" and rec.get("ref") is not None and rec["pred"] != rec["ref"]:
